@@ -646,3 +646,5 @@ def _replay(case):
     if exp == 'accept' and out is not None:
         return f'after {list(hist[:-1])!r} the operation {hist[-1]!r} raised {out}'
     return None
+
+MANIFEST['text'] += ' A spelling shard registers, finds and removes one pattern under its three spellings one level deeper.'
